@@ -1092,7 +1092,9 @@ class ComplexModelBase(ModelBase):
         fti = cls.get_flat_type_info(cls)
 
         retval = TypeInfo()
-        tags = set()
+        # the classes on the way from the root to a member: only those stop
+        # the expansion (recursive types), not a class seen in a sibling.
+        tags = frozenset((cls,))
 
         queue = deque()
         if prot is None:
@@ -1105,6 +1107,7 @@ class ComplexModelBase(ModelBase):
                     (sub_name,),
                     (_is_array(v),),
                     cls,
+                    tags,
                 ))
 
         else:
@@ -1120,12 +1123,11 @@ class ComplexModelBase(ModelBase):
                     (sub_name,),
                     (_is_array(v),),
                     cls,
+                    tags,
                 ))
 
-        tags.add(cls)
-
         while len(queue) > 0:
-            keys, v, prefix, is_array, parent = queue.popleft()
+            keys, v, prefix, is_array, parent, tags = queue.popleft()
             k = keys[-1]
             if issubclass(v, Array) and v.Attributes.max_occurs == 1:
                 v, = v._type_info.values()
@@ -1141,7 +1143,7 @@ class ComplexModelBase(ModelBase):
                 )
 
                 if not (v in tags):
-                    tags.add(v)
+                    tags = tags | frozenset((v,))
                     if prot is None:
                         for k2, v2 in v.get_flat_type_info(v).items():
                             sub_name = k2
@@ -1150,7 +1152,8 @@ class ComplexModelBase(ModelBase):
                                 v2,
                                 prefix + (sub_name,),
                                 is_array + (_is_array(v),),
-                                v
+                                v,
+                                tags,
                             ))
 
                     else:
@@ -1166,6 +1169,7 @@ class ComplexModelBase(ModelBase):
                                 prefix + (sub_name,),
                                 is_array + (_is_array(v),),
                                 v,
+                                tags,
                             ))
 
             else:
